@@ -2,10 +2,15 @@ package main
 
 import (
 	"bytes"
+	"crypto/sha256"
+	"encoding/hex"
+	"encoding/json"
 	"errors"
 	"fmt"
 	"io"
 	"net/http"
+	"strings"
+	"sync"
 	"sync/atomic"
 	"time"
 
@@ -47,6 +52,59 @@ var knownURLs = []string{
 // embedded document (never fetched, never overwritten).
 const embeddedURL = ctxload.URLIden3CredV2
 
+// ---- IPFS: a gateway served by the HTTP stub, and a node client stub ----
+
+const gwBase = "https://ipfs-gw.example.org"
+
+// ipfsDoc: a resource available under ipfs://<cid>/<path> (path may be empty).
+type ipfsDoc struct {
+	cid, path, src string // src: ctxload URL whose bytes are served
+}
+
+var ipfsDocs = []ipfsDoc{
+	{"QmC20StressCredentialsV1aaaaaaaaaaaaaaaaaaaaaaaaaa", "ctx/credentials.jsonld", ctxload.URLCredentialsV1},
+	{"QmC20StressKycV3bbbbbbbbbbbbbbbbbbbbbbbbbbbbbbbbbb", "kyc-v3.json-ld", ctxload.URLKYCv3},
+	{"QmC20StressCitizenshipcccccccccccccccccccccccccccc", "", ctxload.URLCitizenship},
+}
+
+func (d ipfsDoc) rel() string {
+	if d.path == "" {
+		return d.cid
+	}
+	return d.cid + "/" + d.path
+}
+
+// gatewayURL is where the loader fetches the resource when it is configured with a gateway.
+func (d ipfsDoc) gatewayURL() string { return gwBase + "/ipfs/" + d.rel() }
+
+// aliases: names under which the same resource can be requested through a loader with a gateway.
+func (d ipfsDoc) aliases() []string {
+	return []string{"ipfs://" + d.rel(), "ipfs:///" + d.rel(), d.gatewayURL()}
+}
+
+// ipfsCliStub implements loaders.IPFSClient from a read-only table.
+type ipfsCliStub struct {
+	docs map[string][]byte
+	cats int64 // atomic
+}
+
+func newIPFSCli(raw *ctxload.Loader) *ipfsCliStub {
+	c := &ipfsCliStub{docs: map[string][]byte{}}
+	for _, d := range ipfsDocs {
+		c.docs[d.rel()] = raw.Raw(d.src)
+	}
+	return c
+}
+
+func (c *ipfsCliStub) Cat(u string) (io.ReadCloser, error) {
+	atomic.AddInt64(&c.cats, 1)
+	b, ok := c.docs[strings.TrimLeft(u, "/")]
+	if !ok {
+		return nil, errors.New("ipfs stub: no such object")
+	}
+	return io.NopCloser(bytes.NewReader(b)), nil
+}
+
 func cacheControlFor(u string) string {
 	switch u {
 	case ctxload.URLKYCv101:
@@ -66,6 +124,9 @@ func newStub(raw *ctxload.Loader) (*stubTransport, error) {
 			return nil, fmt.Errorf("ctxload has no bytes for %s", u)
 		}
 		s.known[u] = &stubEntry{body: b, cacheControl: cacheControlFor(u)}
+	}
+	for _, d := range ipfsDocs {
+		s.known[d.gatewayURL()] = &stubEntry{body: raw.Raw(d.src), cacheControl: "max-age=3600"}
 	}
 	return s, nil
 }
@@ -117,13 +178,55 @@ func (s *stubTransport) okFetches() int64 {
 type ttlEngine struct {
 	inner loaders.CacheEngine
 	ttl   time.Duration
+	quiet bool // no counters at all: atomics are synchronisation for the race detector and can hide races
 
 	gets, hits, misses, expiredHits, getErrs int64
 	sets, clipped                            int64
+
+	// every document handed to Set with a digest of a deep copy taken at that moment; compared
+	// after the run (cached documents are shared by pointer and must never be modified).  The
+	// mutex only orders Sets among themselves, which the engine's own write lock does anyway.
+	snapMu sync.Mutex
+	snaps  []docSnap
+}
+
+type docSnap struct {
+	key    string
+	doc    *ld.RemoteDocument
+	digest string
+}
+
+func docDigest(d *ld.RemoteDocument) string {
+	if d == nil {
+		return "nil"
+	}
+	b, err := json.Marshal(d.Document)
+	if err != nil {
+		return "marshal-error:" + err.Error()
+	}
+	sum := sha256.Sum256(b)
+	return "url=" + d.DocumentURL + ";ctx=" + d.ContextURL + ";sha256=" + hex.EncodeToString(sum[:])
+}
+
+// mutated returns a description of every stored document that no longer equals the copy taken
+// when it was stored.  Call only when no goroutine uses the loader any more.
+func (t *ttlEngine) mutated() []string {
+	t.snapMu.Lock()
+	defer t.snapMu.Unlock()
+	var bad []string
+	for _, s := range t.snaps {
+		if now := docDigest(s.doc); now != s.digest {
+			bad = append(bad, fmt.Sprintf("cache entry %s: stored {%s}, now {%s}", s.key, s.digest, now))
+		}
+	}
+	return bad
 }
 
 func (t *ttlEngine) Get(key string) (*ld.RemoteDocument, time.Time, error) {
 	doc, exp, err := t.inner.Get(key)
+	if t.quiet {
+		return doc, exp, err
+	}
 	atomic.AddInt64(&t.gets, 1)
 	switch {
 	case err == nil:
@@ -140,11 +243,19 @@ func (t *ttlEngine) Get(key string) (*ld.RemoteDocument, time.Time, error) {
 }
 
 func (t *ttlEngine) Set(key string, doc *ld.RemoteDocument, exp time.Time) error {
-	atomic.AddInt64(&t.sets, 1)
+	if !t.quiet {
+		atomic.AddInt64(&t.sets, 1)
+	}
+	dg := docDigest(doc)
+	t.snapMu.Lock()
+	t.snaps = append(t.snaps, docSnap{key: key, doc: doc, digest: dg})
+	t.snapMu.Unlock()
 	if t.ttl > 0 {
 		if lim := time.Now().Add(t.ttl); exp.After(lim) {
 			exp = lim
-			atomic.AddInt64(&t.clipped, 1)
+			if !t.quiet {
+				atomic.AddInt64(&t.clipped, 1)
+			}
 		}
 	}
 	return t.inner.Set(key, doc, exp)
@@ -153,27 +264,50 @@ func (t *ttlEngine) Set(key string, doc *ld.RemoteDocument, exp time.Time) error
 // ---- loader construction ------------------------------------------------------
 
 type loaderEnv struct {
-	stub   *stubTransport
-	engine *ttlEngine
-	loader ld.DocumentLoader
+	stub    *stubTransport
+	cli     *ipfsCliStub
+	engine  *ttlEngine // of loader
+	engines []*ttlEngine
+	loader  ld.DocumentLoader // HTTP + IPFS gateway (the main shared loader)
+	cliLd   ld.DocumentLoader // HTTP + IPFS node client
+	bothLd  ld.DocumentLoader // HTTP + IPFS node client + gateway (the client wins)
 }
 
-// newLoaderEnv builds stub + memory cache engine (one embedded document) +
-// wrapper + document loader. It is called twice: once for the sequential oracle
-// and once for the shared loader of the concurrent phase.
-func newLoaderEnv(raw *ctxload.Loader, ttl time.Duration) (*loaderEnv, error) {
+// newLoaderEnv builds stub + memory cache engines (one embedded document each) + wrappers +
+// three document loaders that differ in their IPFS configuration.  It is called twice: once for
+// the sequential oracle and once for the shared loaders of the concurrent phase.
+func newLoaderEnv(raw *ctxload.Loader, ttl time.Duration, quiet bool) (*loaderEnv, error) {
 	stub, err := newStub(raw)
 	if err != nil {
 		return nil, err
 	}
-	inner, err := loaders.NewMemoryCacheEngine(
-		loaders.WithEmbeddedDocumentBytes(embeddedURL, raw.Raw(embeddedURL)))
+	env := &loaderEnv{stub: stub, cli: newIPFSCli(raw)}
+	mk := func() (*ttlEngine, error) {
+		inner, err := loaders.NewMemoryCacheEngine(
+			loaders.WithEmbeddedDocumentBytes(embeddedURL, raw.Raw(embeddedURL)))
+		if err != nil {
+			return nil, err
+		}
+		e := &ttlEngine{inner: inner, ttl: ttl, quiet: quiet}
+		env.engines = append(env.engines, e)
+		return e, nil
+	}
+	hc := &http.Client{Transport: stub}
+	e1, err := mk()
 	if err != nil {
 		return nil, err
 	}
-	eng := &ttlEngine{inner: inner, ttl: ttl}
-	l := loaders.NewDocumentLoader(nil, "",
-		loaders.WithCacheEngine(eng),
-		loaders.WithHTTPClient(&http.Client{Transport: stub}))
-	return &loaderEnv{stub: stub, engine: eng, loader: l}, nil
+	e2, err := mk()
+	if err != nil {
+		return nil, err
+	}
+	e3, err := mk()
+	if err != nil {
+		return nil, err
+	}
+	env.engine = e1
+	env.loader = loaders.NewDocumentLoader(nil, gwBase+"/", loaders.WithCacheEngine(e1), loaders.WithHTTPClient(hc))
+	env.cliLd = loaders.NewDocumentLoader(env.cli, "", loaders.WithCacheEngine(e2), loaders.WithHTTPClient(hc))
+	env.bothLd = loaders.NewDocumentLoader(env.cli, gwBase, loaders.WithCacheEngine(e3), loaders.WithHTTPClient(hc))
+	return env, nil
 }
